@@ -115,6 +115,6 @@ require (
 replace (
 	github.com/99designs/keyring => github.com/cosmos/keyring v1.1.7-0.20210622111912-ef00f8ac3d76
 	github.com/gogo/protobuf => github.com/regen-network/protobuf v1.3.3-alpha.regen.1
-	github.com/teleport-network/teleport => /tmp/seedrun/C14-5-C14
+	github.com/teleport-network/teleport => /repo
 	google.golang.org/grpc => google.golang.org/grpc v1.33.2
 )
